@@ -4,7 +4,7 @@ sys.path.insert(0, os.path.dirname(os.path.abspath(__file__)))
 import vlib, gen_mhupdate
 
 THMS_TAIL = ["IsalVerif.GenProps.MhTail.all_canon", "IsalVerif.GenProps.MhTail.all_count", "IsalVerif.GenProps.MhTail.mhtail_current",
-             "IsalVerif.MhTailC.canon_tail"]
+             "IsalVerif.MhTailC.canon_tail", "IsalVerif.MhTailC.tailBlocks_is_standard", "IsalVerif.GenProps.MhTail.mhtail_is_standard"]
 THMS = ["IsalVerif.GenProps.MhUpdate.all_canon", "IsalVerif.GenProps.MhUpdate.all_count",
         "IsalVerif.GenProps.MhUpdate.mhupdate_current", "IsalVerif.MhC.canon_mh_update"]
 
